@@ -43,6 +43,24 @@ v('C17', 'fire', K, 'norm4 / 120', 'norm4 / 100', 'Taylor coefficient')
 v('C17 C01', 'fire', K, 'mat[0, 1] = k2 * rv[0] * rv[1] - k1 * rv[2]', 'mat[0, 1] = k2 * rv[0] * rv[1] + k1 * rv[2]', 'skew sign')
 v('C17', 'fire', K, 'k2 = (1 - np.cos(norm)) / norm2', 'k2 = (1 - np.cos(norm)) / norm', 'closed-form coefficient')
 v('C17', 'silent', K, 'cos = 1 - norm2 / 2 + norm4 / 24', 'cos = 1 - norm2 * (0.5 - norm2 / 24)', 'Horner form')
+_VD_OLD = ('        if with_altitude:\n'
+           '            velocity_n[j + 1, 2] = V3 + dv3 + (- (chi1 + Omega1) * V2\n'
+           '                                               + (chi2 + Omega2) * V1\n'
+           '                                               - 0.5 * (chi1 * dv2 - chi2 * dv1)\n'
+           '                                               + gravity(lat, alt - 0.5 * V3 * dt)\n'
+           '                                               ) * dt\n'
+           '        else:\n'
+           '            velocity_n[j + 1, 2] = 0.0\n')
+_VD_NEW = ('        velocity_n[j + 1, 2] = V3 + dv3 + (- (chi1 + Omega1) * V2\n'
+           '                                           + (chi2 + Omega2) * V1\n'
+           '                                           - 0.5 * (chi1 * dv2 - chi2 * dv1)\n'
+           '                                           + gravity(lat, alt - 0.5 * V3 * dt)\n'
+           '                                           ) * dt\n')
+v('C13', 'fire', K, [_VD_OLD, '        lla[j + 1, 2] = lla[j, 2] - V3 * dt\n'],
+  [_VD_NEW, '        lla[j + 1, 2] = lla[j, 2] - V3 * dt\n        if not with_altitude:\n            velocity_n[j + 1, 2] = 0.0\n'],
+  'seeded C13 round 5: vertical velocity clamped after the trapezoid average was taken')
+v('C13 C01', 'silent', K, [_VD_OLD], [_VD_NEW + '        if not with_altitude:\n            velocity_n[j + 1, 2] = 0.0\n'],
+  'clamped directly after the store, before any read: same values')
 _FAST = ('    if norm2 %s:\n        mat[:, :] = 0.0\n        mat[0, 0] = 1.0\n        mat[1, 1] = 1.0\n'
          '        mat[2, 2] = 1.0\n        return\n    if norm2 > 1e-6:')
 v('C17 C01', 'fire', K, '    if norm2 > 1e-6:', _FAST % '< 1e-14',
@@ -122,6 +140,17 @@ v('C14', 'fire', 'inertial_sensor.py', '                if actual != nominal:', 
 v('C14', 'silent', 'inertial_sensor.py', '                if actual != nominal:', '                if not actual == nominal:', 'same exact test, other spelling')
 v('C14', 'silent', 'inertial_sensor.py', '                if actual != nominal:', '                if actual - nominal != 0:', 'same exact test on the deviation')
 FL = 'filters.py'
+_PR_OLD = ("            pva = pd.concat([\n                integrator.predict((measurement_time - time) / increment['dt'] *\n"
+           "                                   increment),\n                pd.Series(increment[THETA_COLS].values / increment['dt'],\n")
+v('C09 C12', 'fire', FL, _PR_OLD,
+  "            partial = (measurement_time - time) / increment['dt'] * increment\n            pva = pd.concat([\n"
+  "                integrator.predict(partial),\n                pd.Series(partial[THETA_COLS].values / partial['dt'],\n",
+  'seeded C09 round 5: body rates from the scaled increment (0/0 when the epoch coincides with the state)')
+v('C09', 'silent', FL, _PR_OLD,
+  "            partial = (measurement_time - time) / increment['dt'] * increment\n            pva = pd.concat([\n"
+  "                integrator.predict(partial),\n                pd.Series(increment[THETA_COLS].values / increment['dt'],\n",
+  'the predicted increment held in a local: same values')
+v('C10 C11', 'fire', FL, '    times = trajectory_nominal.index\n', '    times = trajectory_nominal.index\n    time_step = max(time_step, times[1] - times[0])\n', 'seeded C10 round 5: step clamped to the first sampling interval')
 v('C09 C12', 'silent', FL, '    end_time = increments.index[-1]', '    end_time = increments.index.max()', 'same end of a sorted index, other spelling')
 v('C09', 'silent', FL, '    end_time = increments.index[-1]', '    end_time = float(np.max(increments.index))')
 v('C09', 'fire', FL, '    end_time = increments.index[-1]', '    end_time = increments.index[-2]', 'the run stops one increment early')
@@ -176,6 +205,14 @@ IS = 'inertial_sensor.py'
 _CI = '        if isinstance(increments, pd.DataFrame):\n            dt = np.asarray(dt).reshape(-1, 1)'
 v('C14 C12', 'fire', IS, _CI, '        if np.abs(self.bias).max() < 1e-6:\n            return increments\n' + _CI, 'shortcut review: estimates below a threshold are not applied')
 v('C14', 'silent', IS, _CI, '        if not np.any(self.bias) and np.array_equal(self.transform, np.identity(3)):\n            return increments\n' + _CI, 'exact fast path: the correction is the identity')
+TR = 'transform.py'
+v('C18 C05', 'fire', TR, "    if _has_rph(difference):\n        difference[RPH_COLS] = util.to_180_range(difference[RPH_COLS])", "    if 'heading' in difference:\n        difference['heading'] = util.to_180_range(difference['heading'])", 'seeded C18 round 5: only the heading difference is reduced')
+v('C08 C07', 'fire', KA, '    H = np.zeros((2 * n, 2 * n))\n    H[:n, :n] = F\n    H[:n, n:] = Q\n    H[n:, n:] = -F.T\n    H = expm(H * dt)\n    return H[:n, :n], H[:n, n:] @ H[:n, :n].T',
+  '    Q_norm = np.linalg.norm(Q, 1)\n    scale = np.linalg.norm(F, 1) / Q_norm if Q_norm > 0 else 1.0\n    H = np.zeros((2 * n, 2 * n))\n    H[:n, :n] = F\n    H[:n, n:] = scale * Q\n    H[n:, n:] = -F.T\n    H = expm(H * dt)\n    return H[:n, :n], H[:n, n:] @ H[:n, :n].T / scale',
+  'seeded C08 round 5: balancing scale is zero for a zero dynamics matrix')
+v('C05 C04', 'fire', 'error_model.py', ['    @classmethod\n    def _transform_to_output_3d(cls, trajectory):', '        result = np.zeros((trajectory.shape[0], 9, 9))\n'],
+  ['    _OUTPUT_3D_SINGLE = np.zeros((1, 9, 9))\n\n    @classmethod\n    def _transform_to_output_3d(cls, trajectory):', '        result = cls._OUTPUT_3D_SINGLE if series else np.zeros((trajectory.shape[0], 9, 9))\n'],
+  'seeded C05 round 5: single-state transform built in a shared class-level buffer')
 UT = 'util.py'
 v('C18', 'silent', UT, '    result = angle % 360', '    if np.all(np.abs(angle) < 180):\n        return angle\n    result = angle % 360', 'shortcut review: already reduced angles returned as they are')
 v('C18', 'fire', UT, '    result = angle % 360', '    if np.all(np.abs(angle) <= 180):\n        return angle\n    result = angle % 360', 'shortcut review: -180 is returned instead of 180')
